@@ -498,6 +498,16 @@ func runC01(c *Ctx) {
 				// except in the alias family: every program of it is well typed, all its stages are
 				// fakes that succeed, so a fork that cannot resolve its arguments IS a C01 defect
 				// (no argument record at all where den has one)
+				if strings.HasPrefix(cs.name, "family/null-control") && finalClass(res.Final) == "failed" &&
+					strings.Contains(res.ErrMsg, "disabled is bound to a null value") && reported["nullctl-fail"] < 2 {
+					reported["nullctl-fail"]++
+					r.violate(Violation{Kind: "property", Key: "C01:null-control:projection-of-null-fails-the-fork",
+						What: "a `disabled` control that is a member projected from a null struct value: den reads it as null = not disabled and runs the call, the real fork fails: " +
+							c01Trunc(classifyRuntimeError(res.Final, res.ErrMsg), 200),
+						Input: map[string]interface{}{"program": cs.src, "name": specs[si].Name,
+							"replay": "write program to f.mro; TA_MRO=f.mro harness TA"},
+						Broken: "den / evalRT (.disabled: isTrue null = false) vs core.Fork.disabled"})
+				}
 				if strings.HasPrefix(cs.name, "family/alias-twice") && finalClass(res.Final) == "failed" &&
 					strings.Contains(res.ErrMsg, "Error resolving input argument bindings") && reported["alias-fail"] < 2 {
 					reported["alias-fail"]++
